@@ -305,7 +305,6 @@ func runHSPS(nalu []byte) (r result) {
 	return r
 }
 
-
 func flatI8s(f *flat, name string, l []int8) {
 	f.u(name+".len", uint64(len(l)))
 	for i, x := range l {
@@ -560,6 +559,109 @@ func runHSlice(nalu []byte, arg string) (r result) {
 	return r
 }
 
+func flatHevcRec(f *flat, name string, d *hevc.DecConfRec) {
+	f.u(name+".ConfigurationVersion", uint64(d.ConfigurationVersion))
+	f.u(name+".GeneralProfileSpace", uint64(d.GeneralProfileSpace))
+	f.b(name+".GeneralTierFlag", d.GeneralTierFlag)
+	f.u(name+".GeneralProfileIDC", uint64(d.GeneralProfileIDC))
+	f.u(name+".GeneralProfileCompatibilityFlags", uint64(d.GeneralProfileCompatibilityFlags))
+	f.u(name+".GeneralConstraintIndicatorFlags", d.GeneralConstraintIndicatorFlags)
+	f.u(name+".GeneralLevelIDC", uint64(d.GeneralLevelIDC))
+	f.u(name+".MinSpatialSegmentationIDC", uint64(d.MinSpatialSegmentationIDC))
+	f.u(name+".ParallellismType", uint64(d.ParallellismType))
+	f.u(name+".ChromaFormatIDC", uint64(d.ChromaFormatIDC))
+	f.u(name+".BitDepthLumaMinus8", uint64(d.BitDepthLumaMinus8))
+	f.u(name+".BitDepthChromaMinus8", uint64(d.BitDepthChromaMinus8))
+	f.u(name+".AvgFrameRate", uint64(d.AvgFrameRate))
+	f.u(name+".ConstantFrameRate", uint64(d.ConstantFrameRate))
+	f.u(name+".NumTemporalLayers", uint64(d.NumTemporalLayers))
+	f.u(name+".TemporalIDNested", uint64(d.TemporalIDNested))
+	f.u(name+".LengthSizeMinusOne", uint64(d.LengthSizeMinusOne))
+	f.u(name+".NaluArrays.len", uint64(len(d.NaluArrays)))
+	for i := range d.NaluArrays {
+		a := &d.NaluArrays[i]
+		n := fmt.Sprintf("%s.NaluArrays[%d]", name, i)
+		f.u(n+".Complete", uint64(a.Complete()))
+		f.u(n+".NaluType", uint64(a.NaluType()))
+		f.u(n+".Nalus.len", uint64(len(a.Nalus)))
+		for k, nalu := range a.Nalus {
+			flatU8s(f, fmt.Sprintf("%s.Nalus[%d]", n, k), nalu)
+		}
+	}
+}
+
+func hexList(field string) [][]byte {
+	if field == "" {
+		return nil
+	}
+	var l [][]byte
+	for _, h := range strings.Split(field, ",") {
+		l = append(l, hx.UnHex(h))
+	}
+	return l
+}
+
+// runHConf: CreateHEVCDecConfRec -> record, Size, Encode, DecodeHEVCDecConfRec(Encode), CodecString("hvc1", sps)
+func runHConf(arg string) (r result) {
+	p := hx.Try(func() {
+		parts := strings.Split(arg, ";")
+		if len(parts) != 4 || len(parts[3]) != 4 {
+			r = result{outcome: "badarg"}
+			return
+		}
+		vps, sps, pps := hexList(parts[0]), hexList(parts[1]), hexList(parts[2])
+		fl := parts[3]
+		d, err := hevc.CreateHEVCDecConfRec(vps, sps, pps, fl[0] == '1', fl[1] == '1', fl[2] == '1', fl[3] == '1')
+		if err != nil {
+			r = result{outcome: "err", errStr: err.Error()}
+			return
+		}
+		f := &flat{}
+		flatHevcRec(f, "Rec", &d)
+		f.u("Size", d.Size())
+		var buf bytes.Buffer
+		if err := d.Encode(&buf); err != nil {
+			r = result{outcome: "err", errStr: "encode: " + err.Error()}
+			return
+		}
+		flatU8s(f, "Encoded", buf.Bytes())
+		d2, err := hevc.DecodeHEVCDecConfRec(hx.Exact(buf.Bytes()))
+		if err != nil {
+			r = result{outcome: "err", errStr: "decode(encode): " + err.Error()}
+			return
+		}
+		flatHevcRec(f, "Decoded", &d2)
+		s, err := hevc.ParseSPSNALUnit(sps[0])
+		if err != nil {
+			r = result{outcome: "err", errStr: err.Error()}
+			return
+		}
+		flatU8s(f, "CodecString", []byte(hevc.CodecString("hvc1", s)))
+		r = result{outcome: "ok", f: f}
+	})
+	if p != "" {
+		r = result{outcome: "panic", errStr: p}
+	}
+	return r
+}
+
+func runHConfD(data []byte) (r result) {
+	p := hx.Try(func() {
+		d, err := hevc.DecodeHEVCDecConfRec(hx.Exact(data))
+		if err != nil {
+			r = result{outcome: "err", errStr: err.Error()}
+			return
+		}
+		f := &flat{}
+		flatHevcRec(f, "Rec", &d)
+		r = result{outcome: "ok", f: f}
+	})
+	if p != "" {
+		r = result{outcome: "panic", errStr: p}
+	}
+	return r
+}
+
 // runHevcCase runs the implementation on one HEVC case (kind starts with "H").
 func runHevcCase(c caseLine, nalu []byte) result {
 	switch c.kind {
@@ -569,6 +671,10 @@ func runHevcCase(c caseLine, nalu []byte) result {
 		return runHPPS(nalu, c.arg)
 	case "HSLICE":
 		return runHSlice(nalu, c.arg)
+	case "HCONF":
+		return runHConf(c.arg)
+	case "HCONFD":
+		return runHConfD(nalu)
 	}
 	return result{outcome: "badkind"}
 }
@@ -582,12 +688,17 @@ func hevcSiteOf(kind string) string {
 		return "hevc.ParsePPSNALUnit"
 	case "HSLICE":
 		return "hevc.ParseSliceHeader"
+	case "HCONF":
+		return "hevc.CreateHEVCDecConfRec"
+	case "HCONFD":
+		return "hevc.DecodeHEVCDecConfRec"
 	}
 	return "hevc." + kind
 }
 
 // classifyHevc maps the list of mismatching field names of a failing HEVC case to a failure class ("" = default).
 func classifyHevc(c caseLine, bad []string) string {
+
 	// slice cases generated outside the guard of the known finding carry the id suffix "k": the short-term
 	// RPS in force is inter-predicted, its used_by_curr_pic flags are not derived by the parser, and the
 	// slice reaches ref_pic_lists_modification()
